@@ -390,6 +390,8 @@ def splice_fn(text, item, log):
             add(st["loops"][int(where.split(":")[1])][1] + 1, "\n" + p["text"] + "\n", 1)
         elif where.startswith("loop_body_end:"):
             add(st["loops"][int(where.split(":")[1])][2], "\n" + p["text"] + "\n", 1)
+        elif where.startswith("after_loop:"):
+            add(st["loops"][int(where.split(":")[1])][2] + 1, "\n" + p["text"] + "\n", 1)
         elif where.startswith("before_loop:"):
             kw = st["loops"][int(where.split(":")[1])][0]
             # include a loop label if present
